@@ -98,6 +98,27 @@ class LiteDRAMAXI2NativeW(Module):
         ]
         self.comb += can_write.eq(w_buffer.level > w_buffer_level)
 
+        # Write ID / Response reservation ----------------------------------------------------------
+        # A burst is only started when its ID and its response have a slot: at most buffer_depth
+        # bursts between the command of their first beat and the acceptance of their response.
+        b_queue   = Signal()
+        b_dequeue = Signal()
+        b_level   = Signal(max=buffer_depth + 1)
+        b_full    = Signal()
+        self.comb += [
+            b_queue.eq(aw.valid & aw.first & aw.ready),
+            b_dequeue.eq(axi.b.valid & axi.b.ready),
+            b_full.eq(aw.first & (b_level == buffer_depth)),
+            If(b_full, can_write.eq(0)),
+        ]
+        self.sync += [
+            If(b_queue,
+                If(~b_dequeue, b_level.eq(b_level + 1))
+            ).Elif(b_dequeue,
+                b_level.eq(b_level - 1)
+            )
+        ]
+
         # Command ----------------------------------------------------------------------------------
         # Accept and send command to the controller only if:
         # - Address & Data request are *both* valid.
@@ -147,7 +168,7 @@ class LiteDRAMAXI2NativeW(Module):
             # Grant write when the beat's address is available and the write buffer is completely empty:
             # no command waiting for its data and no data (of previous beats) waiting for its command.
             self.comb += self.rmw_wgrant.eq(
-                aw.valid &
+                aw.valid & ~b_full &
                 ~w_buffer_queue & (w_buffer_level == 0) &
                 (w_buffer.level == 0) & ~w_buffer.source.valid
             )
